@@ -32,6 +32,7 @@ type Config struct {
 	OneShot      bool
 	NoModelGuide bool
 	FastTimeoutMs int
+	NSamples     int
 }
 
 type ModelFn func(in *Interp, caller *frame, fn *ssa.Function, args []Val) Val
@@ -66,7 +67,7 @@ type Engine struct {
 	ModelsUsed  map[string]int
 	Steps       int64
 	Unsupported map[string]int
-	Samples     [][]InputValue
+	Samples     []Sample
 	LimitHits   map[string]int
 	SolverStats []SolverStat
 	EndReached  int
@@ -365,7 +366,33 @@ func (in *Interp) replayingStrict() bool { return in.pos < len(in.prefix) }
 func (in *Interp) atEnd() {
 	in.W.mu.Lock()
 	in.W.EndReached++
+	n := in.W.EndReached
+	want := len(in.W.Samples) < in.W.Cfg.NSamples && !in.replayingStrict()
+	// spread the samples over the exploration: take path 1, 2, 4, 8, ... and every 97th
+	if want && !(n&(n-1) == 0 || n%97 == 0) {
+		want = false
+	}
 	in.W.mu.Unlock()
+	if !want {
+		return
+	}
+	if r := in.solve(); r == smt.Sat {
+		sm := Sample{Harness: in.harness, Inputs: in.modelInputs()}
+		for _, o := range in.observes {
+			sm.Observed = append(sm.Observed, Observed{o.name, in.evalObserved(o.val)})
+		}
+		in.W.mu.Lock()
+		in.W.Samples = append(in.W.Samples, sm)
+		in.W.mu.Unlock()
+	}
+}
+
+// Sample is a complete feasible path: a concrete assignment of all inputs with the
+// values the executor predicts for every Observe call (validated natively).
+type Sample struct {
+	Harness  string       `json:"harness"`
+	Inputs   []InputValue `json:"inputs"`
+	Observed []Observed   `json:"observed"`
 }
 
 func (e *Engine) finishPath(in *Interp, res PathResult) {
